@@ -8,6 +8,7 @@ every generated table) implies the theorems below about `run A` — the model of
 import Emboss.Lemmas.Lr1Examples
 import Emboss.Lemmas.Lr1Fast
 import Emboss.Lemmas.Lr1Term
+import Emboss.Lemmas.Lr1Gen
 namespace Emboss.Lr1
 
 /-- **The compiled validator decides `Valid`.**  `validFast` (hash-set membership; what the
@@ -100,6 +101,40 @@ theorem C08_terminates_accepting {G : Grammar} {A : Automaton} {C : Cert} (hv : 
   obtain ⟨f, hf⟩ := run_complete hv hd
   exact ⟨f, t, hf f (Nat.le_refl _)⟩
 
+/-! ### Level B: the generator model `gen` (Model/Lr1Gen.lean), closure / goto core
+
+Full statement (NOT proved):
+     theorem C08_gen_valid (h : gen G = some o) (hc : o.conflicts = false) : Valid G o.aut o.cert
+   Proved below: the `VClosure` and `VStart` conjuncts for every output of `gen` (conflict-free or
+   not), and the specification of `closure` / `gotoSet` from which `VKernel`'s item condition
+   follows.  Missing: `VWf` (lookup arrays), `VTrans`/`VKernel` over the BFS numbering, `VComplete` /
+   `VActJust` (action loop), `VOrder` (a justification order of the sorted item lists), `VFirst`.
+   Until then the remaining conjuncts are discharged at run time: `gen G` is compared with the real
+   `Grammar.parser()` on every grammar of the run (identical item sets, numbering, conflict flag,
+   tables — driver op `GEN`), and the real tables are validated (`LRVALID`). -/
+
+/-- **Level B, closure/start.**  Every state of the generated automaton is closed under
+"`[A → α . X β, a]` brings `[X → . γ, c]` for all `c ∈ FIRST(β a)`" (FIRST = the generator's own
+fixed point), state 0 contains `[S' → . start, $]` and consists of dot-0 items only. -/
+theorem C08_gen_valid_partial {G : Grammar} {o : Gen.Out} (h : gen G = some o) :
+    VClosure (listMem o.cert) o.cert ∧ VStart (listMem o.cert) G o.cert :=
+  gen_closure_start h
+
+/-- **Level B, `_closure_of_item`.**  The worklist closure contains its seed, is closed, and
+everything it adds is a dot-0 item that some item of the result brings in (no junk). -/
+theorem C08_gen_closure {C : Cert} {seed S : List Item} (h : Gen.closure C seed = some S) :
+    (∀ x ∈ seed, x ∈ S) ∧ Gen.Closed C S ∧
+      (∀ x ∈ S, x ∈ seed ∨ (x.dot = 0 ∧ ∃ y ∈ S, x ∈ Gen.succsOf C y)) :=
+  Gen.closure_spec h
+
+/-- **Level B, `_parallel_goto`.**  `goto(I, x)` contains the advance of every item of `I` with
+`x` after the dot, is closed, and each of its items is a dot-0 item or such an advance (the item
+condition of the validator's `VKernel`). -/
+theorem C08_gen_goto {C : Cert} {I J : List Item} {x : Nat} (h : Gen.gotoSet C I x = some J) :
+    (∀ it ∈ I, C.nextSyms it = [x] → Gen.advance it ∈ J) ∧ Gen.Closed C J ∧
+    (∀ y ∈ J, y.dot = 0 ∨ ∃ it ∈ I, C.nextSyms it = [x] ∧ y = Gen.advance it) :=
+  Gen.gotoSet_spec h
+
 /-- **Error position.**  If the tables validate and every nonterminal is productive, an error
 reported at index `i` is raised at the first token no sentence can continue with: the consumed
 input `w[:i]` is a prefix of a sentence, and no sentence agrees with `w` on positions `≤ i` —
@@ -136,6 +171,12 @@ example : run exA 60 [⟨5, 0⟩, ⟨4, 1⟩, ⟨0, 2⟩] = .error none 2 4 [0] 
 -- test: the example tables (regenerated from the real code) pass the termination analysis
 example : TermOK exA := by decide
 example : TermOK f10A := by decide
+-- test: the generator model runs on the example grammar (no conflicts, as many states as the real
+-- parser has) and reports conflicts for the ambiguous `S → S a S | b`
+example : (gen exG).map (fun o => (o.conflicts, o.cert.items.size)) = some (false, exC.items.size) := by
+  decide +kernel
+example : (gen ⟨2, [⟨2, [2, 3, 2]⟩, ⟨2, [4]⟩], 1, 0⟩).map (·.conflicts) = some true := by decide +kernel
+example : (Gen.closure exC [⟨2, 0, 0⟩]).isSome = true := by decide
 example : Reduced exG :=
   ⟨by
     have hA : Productive exG 3 := ⟨.node ⟨3, []⟩ [], ParseTree.node _ _ (by decide) (by simp) rfl, rfl⟩
